@@ -5,7 +5,7 @@ gate, E5 no bypass from the parser, E6 registry ownership, E7 message.
 """
 import ast
 
-from sa.model import AnalysisError, walk_no_nested, norm, call_name, stmt_of
+from sa.model import AnalysisError, walk_no_nested, norm, call_name, stmt_of, mangle
 from sa.util import fact_atom, cmp_parts, const_value, raise_name, contains, bound_arg
 from sa.consteval import TOP
 from .proles import ParserRoles
@@ -314,6 +314,13 @@ def gates(ctx, R):
             return True
         return False
 
+    vev = value_gate_eval(ctx, R, vv, cev, switches)
+    if vev is not None and vev[0] == "bad":
+        ctx.violation("E4", vv, "model:value-gate", vev[1], node=vv.node,
+                      witness="`if header :REGEX \"a\" \"b\" {...}` without `require \"regex\"` is accepted (or a loaded one refused)")
+    elif vev is not None:
+        ctx.holds("E4", "%s: %d (slot definition, tag spelling, flag, registry) cases answer as the definition says (extension-bound values in any "
+                  "letter case need their extension unless the caller's flag is off)" % (vv.qualname, vev[1]))
     k = 0
     for r in walk_no_nested(vv.node):
         if isinstance(r, ast.Return) and r.value is not None and const_value(ctx.program, vv, r.value) is not False:
@@ -542,3 +549,76 @@ def bound_arg_fn(call, func, pname):
         if i < len(call.args):
             return call.args[i]
     return None
+
+
+def value_gate_eval(ctx, R, vv, cev, switches):
+    """E4 by evaluation: the value helper interpreted for slot definitions with plain and extension-bound values, tag spellings in
+    several letter cases, both settings of the caller's flag and an empty / a filled registry.
+    -> ("ok", n) | ("bad", what) | None when the interpreter cannot follow the helper."""
+    from sa import fd
+    from sa.util import module_resolver
+    if len(vv.params) < 3 or len(cev) != 1 or switches:
+        return None
+    sn, parg, pval = vv.params[0], vv.params[1], vv.params[2]
+    defs = [
+        {"name": "match-type", "type": ["tag"], "values": [":is", ":contains"], "extension_values": {":regex": "regex", ":count": "relational"}},
+        {"name": "match-type", "type": ["tag"], "extension_values": {":regex": "regex"}},
+        {"name": "match-type", "type": ["tag"], "values": [":is"]},
+        {"name": "x", "type": ["tag"]},
+    ]
+    tags = [":is", ":IS", ":regex", ":REGEX", ":Count", ":bogus"]
+
+    def oracle(interp, e, name, recv, args, kw, st):
+        if name and name.startswith("self.") and (name[5:] in R.Command.methods or mangle(R.Command.name, name[5:]) in R.Command.methods):
+            m = R.Command.methods.get(name[5:]) or R.Command.methods[mangle(R.Command.name, name[5:])]
+            if m.node is not interp.f:
+                return fd.Inline(m)
+        fn = e.func
+        if isinstance(fn, ast.Name) and fn.id in R.cmod.funcs:
+            return fd.Inline(R.cmod.funcs[fn.id])
+        return None
+    n = 0
+    for d in defs:
+        for tag in tags:
+            for flag in (True, False):
+                for loaded in ([], ["regex"], ["relational", "regex"]):
+                    ext = {k: v for k, v in d.get("extension_values", {}).items()}.get(tag.lower())
+                    plain = tag.lower() in d.get("values", [])
+                    if "values" not in d and "extension_values" not in d:
+                        want = True
+                    elif plain:
+                        want = True
+                    elif ext is not None:
+                        want = ("raise", ext) if flag and ext not in loaded else True
+                    else:
+                        want = False
+                    env = {parg: fd.Const(dict(d)), pval: fd.Const(tag), cev[0]: fd.Const(flag),
+                           "RequireCommand.loaded_extensions": fd.Const(list(loaded))}
+                    it = fd.Interp(vv.node, R.Command.name, oracle, resolve=module_resolver(ctx.program, R.cmod), loop_unroll=8, max_paths=60)
+                    try:
+                        ps = it.run(env)
+                    except fd.TooManyPaths:
+                        return None
+                    if len(ps) != 1:
+                        return None
+                    p = ps[0]
+                    if p.kind == "raise":
+                        got = ("raise", None)
+                        if p.value != "ExtensionNotLoaded":
+                            return None
+                    elif isinstance(p.value, fd.Const) and isinstance(p.value.v, bool):
+                        got = p.value.v
+                    else:
+                        t_ = fd.truth(p.value)
+                        if t_ is None:
+                            return None
+                        got = t_
+                    n += 1
+                    ok = (got == want) if not isinstance(want, tuple) else (isinstance(got, tuple))
+                    if not ok:
+                        return ("bad", "for the tag %s, a slot with values %r and extension-bound values %r, %s=%s and the extensions %r loaded, the value "
+                                "helper %s; the definition says: %s" % (
+                                    tag, d.get("values"), d.get("extension_values"), cev[0], flag, loaded,
+                                    "raises ExtensionNotLoaded" if isinstance(got, tuple) else "answers %r" % got,
+                                    "ExtensionNotLoaded(%s)" % want[1] if isinstance(want, tuple) else want))
+    return ("ok", n)
